@@ -20,8 +20,6 @@ CHECKS = {
    "SoySyntax.tla holds the operator table and a table-driven unparser; TLC checks that printing is injective on the family of every (parent operator, child operator, position) + literal/reference shapes, that the paren-less deviation is not, and exports the family; the real parser must read the full and minimal spellings as the spec's tree, and String() of every parsed tree (family + seeded random trees + print commands with directives) must parse back to the same tree",
    "tree comparison ignores positions and the spelling of string literals; FromAST conversion trusted",
    "TLA+ operator table + injectivity model check; TLC-enumerated family and random trees round-tripped through the real parser/printer", "§5 C17"),
-}
-
  "C07": ("model_checking",
    "SoyCheck.tla states the data-reference rules declaratively with lexical block scoping; generated valid bundles and single-rule mutants injected at every applicable site (13 mutation kinds) are compiled by the real code and TLC evaluates SoyCheck.Verdict on each bundle (C07Trace); accepted bundles are rendered with all declared params supplied under the lookup hook (no lookup of a name nothing declares), and the reference interpreter checks the same clause as the invariant ConsequentOK (C07Exec)",
    "accept/reject only (never the message); shapes where the rules' wording is not decisive (a loop variable shadowing a param/let) are Unspec; runtime clause counts only names that no template declares",
